@@ -183,7 +183,7 @@ def replay(path: str) -> int:
     if rp.get('flap'):
         from harness import sessionrig
         sessionrig.install()
-        print(sessionrig.run_flap_scenario(rp['routes'], rp['cut'], rp['ops']))
+        print(sessionrig.run_flap_scenario(rp['routes'], rp['cut'], rp['ops'], neighbor_opts=rp.get('opts')))
         return 1
     if rp.get('cache_on', True):
         return C04.replay(path)
@@ -260,11 +260,13 @@ def run_flap(ctx: Ctx) -> None:
                 intended.pop(ribrig.NLRIS[k], None)
             else:
                 ops.append(['flush'])
+        nopts = rng.choice([{}, {}, {'rate_limit': 1}, {'group_updates': False}, {'rate_limit': 1, 'group_updates': False}])
         try:
-            res = sessionrig.run_flap_scenario(routes_text, cut, ops)
+            res = sessionrig.run_flap_scenario(routes_text, cut, ops, neighbor_opts=nopts)
         except Exception as e:  # noqa: BLE001
-            ctx.disagreements.append(Disagreement('flap-rig', {'routes': routes_text, 'cut': cut, 'ops': ops}, None, f'{type(e).__name__}: {e}'))
+            ctx.disagreements.append(Disagreement('flap-rig', {'routes': routes_text, 'cut': cut, 'ops': ops, 'opts': nopts}, None, f'{type(e).__name__}: {e}'))
             continue
+        ctx.count('flap-opts:' + (','.join(sorted(nopts)) or 'default'))
         ctx.evaluations += 1
         ctx.count('flap-case')
         ctx.count('flap-cut:%s' % ('0' if cut == 0 else 'mid' if cut <= len(routes_text) else 'after'))
@@ -288,7 +290,7 @@ def run_flap(ctx: Ctx) -> None:
             if json.dumps(canon) in seen:
                 continue
             seen.add(json.dumps(canon))
-            ctx.failures.append(Failure('rib-history', canon, {'flap': True, 'routes': routes_text, 'cut': cut, 'ops': ops}, '; '.join(problems)))
+            ctx.failures.append(Failure('rib-history', canon, {'flap': True, 'routes': routes_text, 'cut': cut, 'ops': ops, 'opts': nopts}, '; '.join(problems)))
 
 
 def ops_after_eor_allowed(res: dict) -> bool:
